@@ -66,7 +66,7 @@ def small_model(ob, inputs, timeout_ms):
     return None
 
 
-def discharge_all(session, obligations, timeout_ms, inputs):
+def discharge_all(session, obligations, timeout_ms, inputs, quick_only=False, only=None):
     """group per-path instances by obligation id; an obligation is discharged iff all
     of its instances are"""
     groups = {}
@@ -78,10 +78,12 @@ def discharge_all(session, obligations, timeout_ms, inputs):
         groups[ob.oid].append(ob)
     results = []
     for oid in order:
+        if only is not None and oid not in only:
+            continue
         obs = groups[oid]
         status, solver, secs, model, detail = "discharged", set(), 0.0, None, ""
         for ob in obs:
-            st, sv, sc, m, det = discharge(ob.assumptions, ob.goal, timeout_ms)
+            st, sv, sc, m, det = discharge(ob.assumptions, ob.goal, timeout_ms, quick_only=quick_only)
             secs += sc
             solver.add(sv)
             if st == "refuted":
@@ -92,18 +94,26 @@ def discharge_all(session, obligations, timeout_ms, inputs):
                 model = extract_model(mm, inp) if mm is not None else None
                 if model is not None and ob.values:
                     model.update(ob.values)
+                mv = getattr(getattr(session, "cur_contract", None), "model_values", None)
+                if mv is not None and mm is not None:
+                    try:
+                        model = dict(model or {})
+                        model.update(mv(mm))
+                    except Exception as e:  # pragma: no cover
+                        model["_model_values_error"] = f"{type(e).__name__}: {e}"
                 detail = det or f"path decisions {list(ob.path)}"
                 break
             if st == "unknown":
                 status = "unknown"
                 detail = det
+                break  # undecided either way; a small-scope pass (if configured) searches for a model
         r = Result(oid, obs[0].kind, status, "+".join(sorted(solver)), round(secs, 4), obs[0].where, obs[0].note,
                    model, len(obs), detail)
         results.append(r)
     return results
 
 
-def run_contract(contract, timeout_ms=10000, configure=None):
+def run_contract(contract, timeout_ms=10000, configure=None, configure_small=None):
     t0 = time.time()
     sess = Session(timeout_ms)
     if configure is not None:
@@ -116,8 +126,41 @@ def run_contract(contract, timeout_ms=10000, configure=None):
         sess.register(contract)
         obligations, info = sess.verify(contract)
         out["info"] = info
-        out["results"] = [r.to_json() for r in discharge_all(sess, obligations, timeout_ms, sess.last_inputs)]
+        results = discharge_all(sess, obligations, timeout_ms, sess.last_inputs, quick_only=configure_small is not None)
         out["info"]["instances"] = len(obligations)
+        if configure_small is not None and any(r.status != "discharged" for r in results):
+            # counter-model search: the SAME obligations generated from the same source under
+            # the small-scope interpretation of the sorts (every such model is an instance)
+            sess2 = Session(timeout_ms)
+            configure_small(sess2)
+            sess2.register(contract)
+            ob2, info2 = sess2.verify(contract)
+            res2 = {r.oid: r for r in discharge_all(sess2, ob2, timeout_ms, sess2.last_inputs)}
+            out["info"]["small_scope"] = {"instances": len(ob2), "refuted": [k for k, r in res2.items() if r.status == "refuted"],
+                                          "status_of_open": {r.oid: (res2[r.oid].status + " " + str(res2[r.oid].secs) + "s " + res2[r.oid].detail[:80]
+                                                                     if r.oid in res2 else "absent")
+                                                             for r in results if r.status != "discharged"}}
+            small_ref = [r for r in res2.values() if r.status == "refuted"]
+            for r in results:
+                if r.status == "discharged":
+                    continue
+                r2 = res2.get(r.oid)
+                if r2 is not None and r2.status == "refuted":
+                    r.status, r.model = "refuted", r2.model
+                    r.detail = f"proof mode: {r.detail or r.status}; refuted in small scope (3 simulators, depth 1, times = Int)"
+                    r.solver = (r.solver + "+" if r.solver else "") + "z3-small-scope"
+            # still undecided after the small-scope pass: give the remaining back ends their chance
+            left = {r.oid for r in results if r.status == "unknown"}
+            if left:
+                again = {r.oid: r for r in discharge_all(sess, obligations, timeout_ms, sess.last_inputs, only=left)}
+                results = [again.get(r.oid, r) if r.oid in left else r for r in results]
+            # obligations that exist only in small scope (different path structure) and fail there
+            known = {r.oid for r in results}
+            for r2 in small_ref:
+                if r2.oid not in known:
+                    r2.detail = "refuted in small scope; obligation id has no proof-mode counterpart"
+                    results.append(r2)
+        out["results"] = [r.to_json() for r in results]
     except Unsupported as e:
         out["error"] = {"type": "unsupported", "msg": str(e)}
     except Exception as e:  # checker crash
